@@ -60,9 +60,10 @@ def persistStep (st : PersistSt) (l : String) (ws : List String) : Option (List 
     some ([l], { b := BddSt.fresh nv false, ac := [], names := nv })
   | "pop" :: opws =>
     match bddOp st.b opws with
-    | some (s, r, tt) =>
-      some ([l, s!"= {r}", s!"~ {tt}", "~ twin=1"],
-            { st with b := { st.b with s := s, hist := st.b.hist.push r, tts := st.b.tts.push tt } })
+    | some (op, tt) =>
+      let r := stepOp st.b.s st.b.hist.toList op
+      some ([l, s!"= {r.2}", s!"~ {tt}", "~ twin=1"],
+            { st with b := { st.b with s := r.1, hist := st.b.hist.push r.2, tts := st.b.tts.push tt } })
     | none => some ([l, "= bad-request", "~ bad-request"],
                     { st with b := { st.b with hist := st.b.hist.push 0, tts := st.b.tts.push 0 } })
   | "pac" :: hs =>
